@@ -24,6 +24,14 @@ Conventions shared with harness/l2.cpp:
   K: node 1, line 2, path 3, trip 4, scenario 5, agency 6, service 7
   stop n sits at latitude 45.0, longitude -73.0 + n*1e-5; origin point (lon -73.0, lat 45.0001),
   destination point (lon -73.0, lat 45.0002), accessibility place = origin point.
+
+Optional stop clusters (used by check_c20.py; everything else keeps the single cluster above, byte for byte):
+  a dataset may carry `ds.lon_off = {stop id: offset in micro-degrees of longitude}` (set_clusters): stop n then sits at
+  longitude -73.0 + n*1e-5 + lon_off[n]*1e-6; a query may carry q["origin_off"] / q["dest_off"] (micro-degrees): its
+  origin / destination / place point is moved east by that much.  With offsets that are multiples of 0.5 degree (39 km)
+  the straight-line pre-filter of the server only lets the stops of the point's own cluster through (candidates()),
+  so different requests have DIFFERENT candidate stop sets.  OsrmStub.set_layout(ds) tells the stub how to map the
+  longitudes it is asked about back to stop ids.
 """
 import json, os, re, socket, struct, subprocess, sys, threading, time
 
@@ -41,6 +49,40 @@ ORIGIN_LAT, DEST_LAT, POINT_LON = 45.0001, 45.0002, -73.0
 ORIGIN = "-73.0,45.0001"       # "lon,lat" (route_parameters.cpp: Point(stod(v[1]), stod(v[0])) = Point(lat, lon))
 DESTINATION = "-73.0,45.0002"
 UNREACHABLE = 100000           # duration and distance served for stops that are not in the table
+
+
+CLUSTER_STEP = 500000          # micro-degrees of longitude between two stop clusters (0.5 degree, about 39 km at latitude 45)
+
+
+def lon_off(ds, n):
+    """longitude offset (micro-degrees) of stop n of dataset ds; 0 without clusters"""
+    m = getattr(ds, "lon_off", None)
+    return m.get(n, 0) if m else 0
+
+
+def node_lon_e6(ds, n):
+    """longitude of stop n as written to the cache files (Int32, degrees * 1e6)"""
+    return -73000000 + 10 * n + lon_off(ds, n)
+
+
+def set_clusters(ds, nclusters, key=None):
+    """Spread the stops of ds over `nclusters` clusters CLUSTER_STEP apart: stop n goes to cluster key(n) (default n % nclusters).
+    Returns ds (modified in place: ds.lon_off)."""
+    key = key or (lambda n: n % nclusters)
+    ds.lon_off = {n: CLUSTER_STEP * key(n) for n in ds.nodes}
+    return ds
+
+
+def candidates(ds, point_off=0):
+    """the stops the server's straight-line pre-filter lets through for a point with longitude offset `point_off`, in the
+    order they are asked (uuid = id order): the stops of the point's cluster (all stops without clusters).  Holds for
+    walking limits up to 20 000 s (27.8 km) and at most a few thousand stops per cluster."""
+    return [n for n in sorted(ds.nodes) if lon_off(ds, n) == point_off]
+
+
+def point_text(off, lat_text):
+    """"lon,lat" of the origin / destination point moved east by `off` micro-degrees"""
+    return "-73.0," + lat_text if not off else "%.6f,%s" % (POINT_LON + off / 1e6, lat_text)
 
 
 def uuid_of(kind, n):
@@ -231,7 +273,7 @@ def cache_texts(ds):
 
     def node_fields(n):
         return "uuid = %s, id = %d, code = %s, name = %s, latitude = 45000000, longitude = %d, isEnabled = 1" % (
-            _q(U(K_NODE, n)), n, _q("%d" % n), _q("n%d" % n), -73000000 + 10 * n)
+            _q(U(K_NODE, n)), n, _q("%d" % n), _q("n%d" % n), node_lon_e6(ds, n))
     coll.append(("nodes.capnpbin", "nodeCollection.capnp", "NodeCollection",
                  "(nodes = %s)" % _lst("(%s)" % node_fields(n) for n in ds.nodes)))
     coll.append(("lines.capnpbin", "lineCollection.capnp", "LineCollection",
@@ -430,6 +472,7 @@ class OsrmStub:
         self._origin = {}
         self._dest = {}
         self._faults = []
+        self._lonmap = None          # {longitude * 1e6: stop id} when the dataset has stop clusters (set_layout)
         self.requests_seen = []      # (kind of first coordinate: "origin"|"dest"|"other", [node ids asked])
         self.faults_applied = []     # fault used for each incoming connection, in order
         self.hang_seconds = hang_seconds
@@ -456,6 +499,12 @@ class OsrmStub:
     def set_faults(self, faults):
         with self._lock:
             self._faults = list(faults)
+
+    def set_layout(self, ds):
+        """dataset with stop clusters (ds.lon_off): map the longitudes asked about back to stop ids through the dataset's
+        own coordinates; set_layout(None) returns to the single-cluster formula."""
+        with self._lock:
+            self._lonmap = {node_lon_e6(ds, n): n for n in ds.nodes} if ds is not None and getattr(ds, "lon_off", None) else None
 
     def pending_faults(self):
         with self._lock:
@@ -515,8 +564,9 @@ class OsrmStub:
         return data
 
     @staticmethod
-    def parse_request(data):
-        """-> (kind, [node ids]) or None"""
+    def parse_request(data, lonmap=None):
+        """-> (kind, [node ids]) or None.  lonmap: {longitude * 1e6: stop id} of a clustered dataset (a longitude that is
+        not in it gives the id -1, which no table knows: served as unreachable)"""
         line = data.split(b"\r\n", 1)[0].decode("latin-1")
         m = re.match(r"GET /table/v1/[a-z]+/([^? ]*)(\?\S*)? HTTP", line)
         if not m:
@@ -532,6 +582,8 @@ class OsrmStub:
             return None
         lat0 = coords[0][1]
         kind = "origin" if abs(lat0 - ORIGIN_LAT) < 5e-6 else ("dest" if abs(lat0 - DEST_LAT) < 5e-6 else "other")
+        if lonmap is not None:
+            return kind, [lonmap.get(int(round(lon * 1e6)), -1) for (lon, _) in coords[1:]]
         return kind, [int(round((lon - POINT_LON) * 1e5)) for (lon, _) in coords[1:]]
 
     def _serve(self, conn, fault):
@@ -542,7 +594,9 @@ class OsrmStub:
             data = self._read_request(conn)
             if data is None:
                 return
-            parsed = self.parse_request(data)
+            with self._lock:
+                lonmap = self._lonmap
+            parsed = self.parse_request(data, lonmap)
             if parsed is None:
                 self._send(conn, "400 Bad Request", b'{"code":"InvalidUrl"}')
                 return
@@ -595,12 +649,13 @@ class OsrmStub:
         conn.sendall(head + (body if cut is None else body[:cut]))
 
 
-def effective_rows(rows, max_time):
+def effective_rows(rows, max_time, cand=None):
     """The footpath list the server's OsrmGeoFilter hands to the calculator when the stub serves `rows`:
     candidate stops are enumerated in uuid (= id) order, rows slower than the maximum walking time are dropped
-    (a stop listed twice keeps its last row).  Use it to feed the same table to harness/l2.cpp or to the model."""
+    (a stop listed twice keeps its last row).  Use it to feed the same table to harness/l2.cpp or to the model.
+    cand: the candidate stops of the point (candidates(ds, off)) for a dataset with stop clusters."""
     last = {r[0]: r for r in rows}
-    return [last[n] for n in sorted(last) if last[n][1] <= max_time]
+    return [last[n] for n in sorted(last) if last[n][1] <= max_time and (cand is None or n in cand)]
 
 
 # ---------------------------------------------------------------------------------------------------
@@ -792,16 +847,24 @@ def _common_qs(q):
                _no_limit(q["maxegr"]), _no_limit(q["maxtr"]), 0 if q["maxfw"] == -1 else _no_limit(q["maxfw"])))
 
 
+def origin_of(q):
+    return point_text(q.get("origin_off", 0), "45.0001")
+
+
+def destination_of(q):
+    return point_text(q.get("dest_off", 0), "45.0002")
+
+
 def route_qs(q, alt=False):
-    return "/v2/route?origin=%s&destination=%s&%s&alternatives=%s" % (ORIGIN, DESTINATION, _common_qs(q), "true" if alt else "false")
+    return "/v2/route?origin=%s&destination=%s&%s&alternatives=%s" % (origin_of(q), destination_of(q), _common_qs(q), "true" if alt else "false")
 
 
 def summary_qs(q, alt=False):
-    return "/v2/summary?origin=%s&destination=%s&%s&alternatives=%s" % (ORIGIN, DESTINATION, _common_qs(q), "true" if alt else "false")
+    return "/v2/summary?origin=%s&destination=%s&%s&alternatives=%s" % (origin_of(q), destination_of(q), _common_qs(q), "true" if alt else "false")
 
 
 def access_qs(q):
-    return "/v2/accessibility?place=%s&%s" % (ORIGIN, _common_qs(q))
+    return "/v2/accessibility?place=%s&%s" % (origin_of(q), _common_qs(q))
 
 
 # ---------------------------------------------------------------------------------------------------
